@@ -30,6 +30,8 @@ type RuntimeOpts struct {
 	OverrideServiceHeader bool
 	// BytesRules puts a max_len rule (raw bytes) on singular bytes body fields.
 	BytesRules bool
+	// JSONNames gives some request fields (path-, query- and body-bound) an explicit json_name.
+	JSONNames bool
 }
 
 var urlFieldNames = []string{"user_id", "org", "page", "q", "name", "ratio", "flag", "item_id", "limit", "cursor", "since", "tenant_name"}
@@ -174,6 +176,13 @@ func GenRuntimeFile(r *R, idx int, o RuntimeOpts) *ir.Request {
 				in.Oneofs = append(in.Oneofs, &ir.Oneof{Name: "pick"})
 				in.Fields = append(in.Fields, &ir.Field{Name: "as_text", Number: no, Kind: "string", Oneof: "pick"}, &ir.Field{Name: "as_leaf", Number: no + 1, Kind: "message", TypeName: P + "Leaf", Oneof: "pick"})
 				no += 2
+			}
+		}
+		if o.JSONNames {
+			for _, fl := range in.Fields {
+				if fl.Oneof == "" && r.P(1, 4) {
+					fl.JSONName = "x" + ir.JSONName("_"+fl.Name)
+				}
 			}
 		}
 		f.Messages = append(f.Messages, in)
